@@ -132,6 +132,8 @@ pub const N_TEXTS: u8 = 5;
 pub fn text(i: u8) -> &'static str {
 	match i {
 		0 => SCHEMA_TEXT,
+		// (not offered to Parse / ParseS: the schema of the datum-level gathering fixture)
+		N_TEXTS => GATHER_TEXT,
 		1 => "[]",
 		2 => r#"{"type":"record","name":"Q","fields":[{"name":"z","type":[]},{"name":"u","type":["null","string"]}]}"#,
 		3 => r#"{"type":"record","name":"Q","fields":[{"name":"u","type":["null","string"]},{"name":"z","type":[]}]}"#,
@@ -157,7 +159,7 @@ pub struct Protos {
 }
 impl Protos {
 	pub fn new() -> Protos {
-		Protos { cache: std::cell::RefCell::new((0..N_TEXTS).map(|_| None).collect()) }
+		Protos { cache: std::cell::RefCell::new((0..=N_TEXTS).map(|_| None).collect()) }
 	}
 	pub fn get(&self, i: u8) -> Result<SchemaMut, ()> {
 		let mut c = self.cache.borrow_mut();
@@ -645,10 +647,97 @@ pub struct Fixtures {
 
 /// Lengths of the string field of the records of the "sized" file (one record per block).
 pub const SIZED_LENS: [usize; 4] = [100, 8, 150, 250];
-pub const N_FILE_VARIANTS: u8 = 2;
-pub fn sized_value(k: usize) -> Rec<'static> {
-	let s: String = std::iter::repeat((b'a' + k as u8) as char).take(SIZED_LENS[k]).collect();
+pub const N_FILE_VARIANTS: u8 = 3;
+/// Lengths of the string field of the records of file variant 2 (one record per block), relative to the
+/// length H of the schema text: a `ReaderRead` whose BufRead hands out less than a value at a time
+/// gathers every string in its scratch buffer; the header leaves the scratch at len = capacity = H;
+/// 1.5 H makes it grow by doubling (len 1.5 H < capacity 2 H); 2.25 H is then larger than the capacity
+/// but by less than the slack (capacity - len); 8 is a small read; 5 H does the same once more.
+pub fn sized2_lens() -> [usize; 4] {
+	let h = SCHEMA_TEXT.len();
+	[h * 3 / 2, 2 * h + h / 4, 8, 5 * h]
+}
+pub fn file_lens(variant: u8) -> Vec<usize> {
+	match variant {
+		1 => SIZED_LENS.to_vec(),
+		2 => sized2_lens().to_vec(),
+		_ => vec![],
+	}
+}
+/// Record k of file variant 1 or 2.
+pub fn file_value(variant: u8, k: usize) -> Rec<'static> {
+	let s: String = std::iter::repeat((b'a' + k as u8) as char).take(file_lens(variant)[k]).collect();
 	Rec { b: Cow::Owned(s), e: Cow::Borrowed(if k % 2 == 0 { "X" } else { "Y" }), l: vec![k as i32], u: None }
+}
+pub fn sized_value(k: usize) -> Rec<'static> {
+	file_value(1, k)
+}
+
+/// Model of a `Vec<u8>` scratch buffer that is only ever grown with `resize(n, 0)` when n > len (what
+/// `ReaderRead::read_slice` does on its gathering path). `read(n)` returns true when this read makes the
+/// buffer grow although an earlier, amortised growth had left len < capacity, and by so little that
+/// `n - capacity <= capacity - len`: the situation in which "reserve what is missing from the capacity"
+/// reserves nothing.
+#[derive(Clone, Copy, Debug, Default, PartialEq, Eq)]
+pub struct ScratchSim {
+	pub len: usize,
+	pub cap: usize,
+}
+impl ScratchSim {
+	pub fn read(&mut self, n: usize) -> bool {
+		if n <= self.len {
+			return false;
+		}
+		let flagged = self.cap > self.len && n > self.cap && n - self.cap <= self.cap - self.len;
+		if self.cap < n {
+			self.cap = (self.cap * 2).max(n).max(8);
+		}
+		self.len = n;
+		flagged
+	}
+	/// the gathered reads of a container header written by the fixtures (metadata map: avro.schema, avro.codec)
+	pub fn after_header(codec_name_len: usize) -> ScratchSim {
+		let mut s = ScratchSim::default();
+		for n in ["avro.schema".len(), SCHEMA_TEXT.len(), "avro.codec".len(), codec_name_len] {
+			s.read(n);
+		}
+		s
+	}
+}
+
+/// Datum-level gathering fixture (no container): record G{a,b,c: string} with strings of 100 / 150 / 250
+/// bytes, read with `from_datum_reader` over a reader that hands out a few bytes at a time: three
+/// gathered reads on ONE `ReaderRead`, starting from an empty scratch buffer.
+pub const GATHER_TEXT: &str = r#"{"type":"record","name":"G","fields":[{"name":"a","type":"string"},{"name":"b","type":"string"},{"name":"c","type":"string"}]}"#;
+pub const GATHER_LENS: [usize; 3] = [100, 150, 250];
+#[derive(Deserialize, Debug, PartialEq, Clone)]
+pub struct Gathered {
+	pub a: String,
+	pub b: String,
+	pub c: String,
+}
+pub fn gather_expected() -> Gathered {
+	let s = |k: usize| -> String { std::iter::repeat((b'p' + k as u8) as char).take(GATHER_LENS[k]).collect() };
+	Gathered { a: s(0), b: s(1), c: s(2) }
+}
+/// Hand-encoded from the Avro specification (zig-zag varint length + bytes, three times).
+pub fn gather_datum() -> Vec<u8> {
+	let g = gather_expected();
+	let mut out = Vec::new();
+	for s in [&g.a, &g.b, &g.c] {
+		let mut z = (s.len() as u64) << 1;
+		loop {
+			let b = (z & 0x7f) as u8;
+			z >>= 7;
+			if z == 0 {
+				out.push(b);
+				break;
+			}
+			out.push(b | 0x80);
+		}
+		out.extend_from_slice(s.as_bytes());
+	}
+	out
 }
 
 pub fn hex(b: &[u8]) -> String {
@@ -701,8 +790,8 @@ impl Fixtures {
 				w.finish_block().map_err(|e| format!("fixture file {c:?}: {e}"))?;
 				w.serialize(&value(1)).map_err(|e| format!("fixture file {c:?}: {e}"))?;
 			} else {
-				for k in 0..SIZED_LENS.len() {
-					w.serialize(&sized_value(k)).map_err(|e| format!("fixture file {c:?}: {e}"))?;
+				for k in 0..file_lens(variant).len() {
+					w.serialize(&file_value(variant, k)).map_err(|e| format!("fixture file {c:?}: {e}"))?;
 					w.finish_block().map_err(|e| format!("fixture file {c:?}: {e}"))?;
 				}
 			}
@@ -743,6 +832,8 @@ impl Fixtures {
 			self.set_file(c, 0, bytes);
 		} else if let Some(c) = name.strip_prefix("file1-").and_then(|l| l.chars().next()).and_then(Codec::from_letter) {
 			self.set_file(c, 1, bytes);
+		} else if let Some(c) = name.strip_prefix("file2-").and_then(|l| l.chars().next()).and_then(Codec::from_letter) {
+			self.set_file(c, 2, bytes);
 		} else {
 			return Err(format!("unknown fixture {name}"));
 		}
